@@ -20,9 +20,63 @@ theorem mult_eq_max (f : GoField) : mult f = max 1 f.names := by
 theorem mult_pos (f : GoField) : 1 ≤ mult f := by
   rw [mult_eq_max]; omega
 
+/-- `unparen` of a `paren` node strips it -/
+theorem unparen_paren (x : GoExpr) : unparen (.paren x) = unparen x := rfl
+
+/-- the result of `unparen` is not a `*ast.ParenExpr` -/
+theorem unparen_ne_paren : ∀ (e y : GoExpr), unparen e ≠ .paren y
+  | .paren x, y => unparen_ne_paren x y
+  | .ident _, _ => nofun
+  | .selector _ _, _ => nofun
+  | .star _, _ => nofun
+  | .basicLit _, _ => nofun
+  | .ellipsis _, _ => nofun
+  | .arrayType _ _, _ => nofun
+  | .funcType, _ => nofun
+  | .interfaceType, _ => nofun
+  | .mapType _ _, _ => nofun
+  | .chanType _, _ => nofun
+  | .other, _ => nofun
+
+theorem unparen_idem : ∀ e : GoExpr, unparen (unparen e) = unparen e
+  | .paren x => unparen_idem x
+  | .ident _ => rfl
+  | .selector _ _ => rfl
+  | .star _ => rfl
+  | .basicLit _ => rfl
+  | .ellipsis _ => rfl
+  | .arrayType _ _ => rfl
+  | .funcType => rfl
+  | .interfaceType => rfl
+  | .mapType _ _ => rfl
+  | .chanType _ => rfl
+  | .other => rfl
+
+/-- Go's `name` switches on `unparen(e)`: the structurally recursive model
+agrees with it -/
+theorem name_eq_unparen : ∀ e : GoExpr, name e = name (unparen e)
+  | .paren x => name_eq_unparen x
+  | .ident _ => rfl
+  | .selector _ _ => rfl
+  | .star _ => rfl
+  | .basicLit _ => rfl
+  | .ellipsis _ => rfl
+  | .arrayType _ _ => rfl
+  | .funcType => rfl
+  | .interfaceType => rfl
+  | .mapType _ _ => rfl
+  | .chanType _ => rfl
+  | .other => rfl
+
+/-- `fieldToType` reads the type only through `unparen` -/
+theorem fieldToType_unparen (n : Nat) (t : GoExpr) : fieldToType ⟨n, t⟩ = fieldToType ⟨n, unparen t⟩ := by
+  simp only [fieldToType, unparen_idem]
+
 theorem fieldToType_snd (f : GoField) : (fieldToType f).2 = isEllipsis f.typ := by
   obtain ⟨n, t⟩ := f
-  cases t with
+  simp only [fieldToType, isEllipsis]
+  generalize unparen t = u
+  cases u with
   | arrayType len elt => cases len <;> rfl
   | _ => rfl
 
@@ -40,7 +94,9 @@ theorem recvFields_append (d : GoFuncDecl) : recvFields d.recv ++ d.params = use
       cases t with
       | nil =>
         obtain ⟨n, ty⟩ := f
-        cases ty <;> rfl
+        simp only [recvFields, usedFields]
+        generalize unparen ty = u
+        cases u <;> rfl
       | cons g t => rfl
 
 theorem extractLoop_cons (a : GoField) (rest : List GoField) (types : List Bytes) (e : Bool) :
